@@ -23,9 +23,24 @@ import RdfModel.Props.C15Ttl
 #print axioms RdfModel.C06.literal_tag_iff
 #print axioms RdfModel.C07.step_flag_independent
 #print axioms RdfModel.C07.ttl_sub_trig_partial
+#print axioms RdfModel.C07.ttl_sub_trig_sim_partial
+#print axioms RdfModel.C07.kwSafe_real
+#print axioms RdfModel.C07.finding_graph_ogham
+#print axioms RdfModel.C07.ttl_sub_trig_refuted
 #print axioms RdfModel.C15.ioerr_reported
 #print axioms RdfModel.C15.clean_only_at_eof
 #print axioms RdfModel.C15.ioerr_reported_real
 #print axioms RdfModel.C15.ttl_truncation_reported_partial
 #print axioms RdfModel.C15.ttl_truncation_next
+#print axioms RdfModel.C15.ttl_truncation_errIgnoring
+#print axioms RdfModel.C15.ttl_truncation_errIgnoring_next
+#print axioms RdfModel.C15.ttl_truncation_reported
+#print axioms RdfModel.C15.nulPlain_real
+#print axioms RdfModel.C15.real_producers_local
+#print axioms RdfModel.C15.scan_local
+#print axioms RdfModel.C15.prefix_lockstep_partial
+#print axioms RdfModel.C15.prefix_lockstep_real_partial
+#print axioms RdfModel.C15.prefix_monotone_d43_partial
+#print axioms RdfModel.C15.tinyFail_real
+#print axioms RdfModel.C15.prefix_monotone_real_partial
 #print axioms RdfModel.C15.top_level_clean
